@@ -118,11 +118,16 @@ def check_point(kind, lon, lat, depths, pix_depths, planetary, part):
 
 
 def _work(job):
-    tier, planetary, pts = job
+    tier, first_planetary, pts = job
     part = Part()
     depths = list(range(0, 7)) if tier == "quick" else list(range(0, 9))
     pix = [1, 3, 6]
-    for k, (kind, lon, lat) in enumerate(pts):
+    # both coordinate systems alternate inside one process (state leaking between them must show)
+    pts2 = []
+    for k, p in enumerate(pts):
+        order = (first_planetary, not first_planetary) if k % 2 == 0 else (not first_planetary, first_planetary)
+        pts2 += [(p, order[0]), (p, order[1])]
+    for k, ((kind, lon, lat), planetary) in enumerate(pts2):
         # which points get the (slow) pixel lookups depends on the point, not on the seed-dependent order
         sel = (int(round(lon * 1e6)) + 3 * int(round(lat * 1e6))) % 4
         if tier == "thorough":
@@ -147,9 +152,9 @@ def run(tier, seed):
     pts = rng_order(points(tier), seed)
     n = par.ncores()
     jobs = []
-    for planetary in (False, True):
-        for i in range(n):
-            jobs.append((tier, planetary, pts[i::n]))
+    n = n * 2
+    for i in range(n):
+        jobs.append((tier, bool(i % 2), pts[i::n]))
     par.pmap(_work, jobs, rep)
     return rep.finish()
 
